@@ -166,6 +166,22 @@ def sig_case(item):
               "ecdsa": [c for c, _ in ECDSA_KEYS],
               "eddsa": EDDSA_KEYS, "dsa": DSA_KEYS}[kind]
     SEAMS.reset(seed, "c10-%s-%s" % (kind, cred))
+    if kind in ("pkcs1", "pss") and cred == "rsa" and h == "sha256":
+        # a signature whose first octet is zero (1 in 256; messages are
+        # tried in a fixed order until one turns up) with that octet dropped
+        # is a shorter string, not the same signature
+        for i in range(4000):
+            m0 = b"leading zero search %d" % i
+            s0 = bytes(sign(m0, salt=salts[-1] if kind == "pss" else None))
+            if s0[0] == 0:
+                sl = salts[-1] if kind == "pss" else None
+                expect("leading-zero-own-key", verify(pub, s0, m0, salt=sl),
+                       True)
+                expect("leading-zero-dropped", verify(pub, s0[1:], m0,
+                                                      salt=sl), False)
+                break
+        else:
+            expect("leading-zero-search", "not found", "found")
     for mi, msg in enumerate(MSGS):
         for salt in salts:
             sig = bytes(sign(msg, salt=salt))
